@@ -39,6 +39,7 @@ def run(chk, replay=None):
     chk.cov["stanzas_injected"] = s["lines"] - s["cases"]
     chk.cov["stanzas_unwrapped"] = s["unwrapped"]
     chk.cov["stanzas_shown_as_outer"] = s["outer"]
+    chk.cov["property_failures"] = s["nviol"]
     chk.cov["diverged_executions"] = s["ndiv"]
     chk.cov["first_divergences"] = s["divs"][:3]
     chk.cov["exhaustive"] = True
@@ -56,9 +57,10 @@ def run(chk, replay=None):
         idx = int(v["case"][1:]) - 1
         b = behs[idx]
         sig = _sig(v, b)
-        if sig in seen:
+        key = (v["prop"], b["gen"], v["c"])      # one report per property, generation and sender class
+        if key in seen:
             continue
-        seen.add(sig)
+        seen.add(key)
         ln = lines[v["line"] - 1]
         chk.violation(sig, f"{v['prop']} fails: gen={b['gen']} own={ln['x']['own']!r} outer from={ln['x']['ofrom']!r} "
                            f"(class {v['c']}), wrapper {v['w']}, inner {v['i']}: application was shown {ln['shown']}",
